@@ -319,11 +319,35 @@ theorem J_observe {s : State} {x : Ext} (hj : J s x) (h : Nat) (ev : Ev) (ha : a
     · intro b hb
       exact hj.sub b (mem_filter.mp (mem_of_mem_erase hb)).1
 
+/-- the part of the ghost the send / fee-increase logs do not touch -/
+theorem next_send_fields (x : Ext) (s : State) (a : Addr) (d : String) (t am f : Nat) :
+    (x.next s (.send a d t am f)).height = x.height ∧ (x.next s (.send a d t am f)).lastNonce = x.lastNonce ∧
+    (x.next s (.send a d t am f)).created = x.created ∧ (x.next s (.send a d t am f)).createdCalls = x.createdCalls ∧
+    (x.next s (.send a d t am f)).callDone = x.callDone := by
+  simp only [Ext.next]
+  split <;> exact ⟨rfl, rfl, rfl, rfl, rfl⟩
+
+theorem next_incFee_fields (x : Ext) (s : State) (id : Nat) (who : Addr) (t add : Nat) :
+    (x.next s (.incFee id who t add)).height = x.height ∧ (x.next s (.incFee id who t add)).lastNonce = x.lastNonce ∧
+    (x.next s (.incFee id who t add)).created = x.created ∧ (x.next s (.incFee id who t add)).createdCalls = x.createdCalls ∧
+    (x.next s (.incFee id who t add)).callDone = x.callDone := by
+  simp only [Ext.next]
+  split <;> exact ⟨rfl, rfl, rfl, rfl, rfl⟩
+
+theorem J_ext {s : State} {x x' : Ext} (hj : J s x)
+    (h : x'.height = x.height ∧ x'.lastNonce = x.lastNonce ∧ x'.created = x.created ∧
+      x'.createdCalls = x.createdCalls ∧ x'.callDone = x.callDone) : J s x' := by
+  obtain ⟨h1, h2, h3, h4, h5⟩ := h
+  exact ⟨by rw [h1]; exact hj.height, by rw [h1, h2, h3]; exact hj.batches, by rw [h1, h4, h5]; exact hj.calls,
+    by rw [h5]; exact hj.pend, by rw [h3]; exact hj.nonces, hj.npos, by rw [h4]; exact hj.cnonces, hj.cpos,
+    by rw [h3]; exact hj.sub, by rw [h4]; exact hj.csub⟩
+
 /-- every operation keeps `J`, provided an observed event is admissible -/
 theorem J_step {s : State} {x : Ext} (hj : J s x) (op : Op) (ha : admissible x op) : J (step s op).1 (x.next s op) := by
   cases op with
   | send a d t am f =>
-    simp only [step, Ext.next]; unfold doSend
+    refine J_ext ?_ (next_send_fields x s a d t am f)
+    simp only [step]; unfold doSend
     repeat' split
     all_goals first | exact hj | exact J_frame hj rfl rfl rfl rfl rfl rfl
   | cancel id who =>
@@ -331,7 +355,8 @@ theorem J_step {s : State} {x : Ext} (hj : J s x) (op : Op) (ha : admissible x o
     repeat' split
     all_goals first | exact hj | exact J_frame hj rfl rfl rfl rfl rfl rfl
   | incFee id who t add =>
-    simp only [step, Ext.next]; unfold doIncFee
+    refine J_ext ?_ (next_incFee_fields x s id who t add)
+    simp only [step]; unfold doIncFee
     repeat' split
     all_goals first | exact hj | exact J_frame hj rfl rfl rfl rfl rfl rfl
   | reqBatch t mf bf fr => exact J_reqBatch hj t mf bf fr
@@ -591,17 +616,19 @@ theorem N_shrink {s s' : State} {x x' : Ext} (hn : N s x) (hc : x'.created = x.c
 theorem N_step {s : State} {x : Ext} (hn : N s x) (op : Op) : N (step s op).1 (x.next s op) := by
   cases op with
   | send a d t am f =>
-    simp only [step, Ext.next]; unfold doSend
+    obtain ⟨_, _, e3, e4, _⟩ := next_send_fields x s a d t am f
+    simp only [step]; unfold doSend
     repeat' split
-    all_goals first | exact hn | exact N_shrink hn rfl rfl (fun _ h => h) (fun _ h => h) rfl rfl
+    all_goals exact N_shrink hn e3 e4 (fun _ h => h) (fun _ h => h) rfl rfl
   | cancel id who =>
     simp only [step, Ext.next]; unfold doCancel
     repeat' split
     all_goals first | exact hn | exact N_shrink hn rfl rfl (fun _ h => h) (fun _ h => h) rfl rfl
   | incFee id who t add =>
-    simp only [step, Ext.next]; unfold doIncFee
+    obtain ⟨_, _, e3, e4, _⟩ := next_incFee_fields x s id who t add
+    simp only [step]; unfold doIncFee
     repeat' split
-    all_goals first | exact hn | exact N_shrink hn rfl rfl (fun _ h => h) (fun _ h => h) rfl rfl
+    all_goals exact N_shrink hn e3 e4 (fun _ h => h) (fun _ h => h) rfl rfl
   | reqBatch t mf bf fr =>
     simp only [Ext.next, step]
     rcases reqBatch_not_ok s t mf bf fr with ⟨n, hn'⟩ | hsame
